@@ -35,7 +35,9 @@ NODE = 'dtn://me/'
 DESTS = ['dtn://a/x', 'dtn://a/xy', 'dtn://a/y', 'dtn://a/', 'dtn://b/svc', 'dtn://b/svc2', 'dtn://c/q', 'ipn:5.1', 'ipn:5.10', 'ipn:50.1',
          NODE, 'dtn://me/app', 'dtn://zz/none',
          # demux text ending in a bare '?' or '#' (RFC 9171: demux = *VCHAR): other endpoints than the ones without it
-         'dtn://a/x?', 'dtn://a/y#', 'dtn://b/svc?#', 'dtn://me/?', 'dtn://me/app#']
+         'dtn://a/x?', 'dtn://a/y#', 'dtn://b/svc?#', 'dtn://me/?', 'dtn://me/app#',
+         # the same texts in another letter case: other endpoints (patterns are matched as written)
+         'dtn://A/x', 'dtn://a/X', 'dtn://B/SVC', 'dtn://ME/app', 'dtn://C/q']
 PATTERNS = [r'dtn://a/x$', r'dtn://a/x.*', r'dtn://a/.*', r'dtn://a/y$', r'dtn://b/svc$', r'dtn://b/.*', r'dtn://.*', r'ipn:5\.1$',
             r'ipn:5\..*', r'ipn:.*', r'dtn://me/.*', r'dtn://c/q$', r'dtn://[ab]/.*']
 ACTIONS = ['deliver', 'forward', 'delete']
